@@ -56,7 +56,7 @@ LEVEL_TEXT = (
 LEVEL_NOTE = "Trusted: lexical owner attribution of spawn sites (innermost enclosing async scope, inherited by spawned tasks), gate scheduler, VirtualLoop quiescence detection."
 
 SCRIPTS = ("now", "gate", "fail", "gate-fail", "forever", "spawn-now", "spawn-gate", "gate-spawn-gate", "forever-spawn-on-cancel")
-SITES = ("plain", "sscope", "updated")
+SITES = ("plain", "sscope", "updated", "callback")
 BODIES = ("return", "raise-exc", "cancel-self", "raise-base", "raise-genexit")
 DFS_CAP = {"quick": 60, "thorough": 400}
 SAMPLE = {"quick": 500, "thorough": 40_000}
@@ -99,9 +99,9 @@ def build(case: dict[str, Any]) -> list[dict[str, Any]]:
     for i, (script, site, in_inner) in enumerate(tasks):
         name = f"t{i}"
         owner = "inner" if in_inner else "blk"
-        sp = {"op": "spawn", "via": "ctx", "name": name, "owner": owner, "body": script_steps(script, name, owner, counter)}
+        sp = {"op": "spawn", "via": "ctx-callback" if site == "callback" else "ctx", "name": name, "owner": owner, "body": script_steps(script, name, owner, counter)}
         step: dict[str, Any] = sp
-        if site != "plain":
+        if site not in ("plain", "callback"):
             step = {"op": "block", "kind": site, "name": f"site{i}", "supply": [["D1", 100 + i]], "body": [sp], "catch": True}
         (inner_body if in_inner else body).append(step)
     if inner_body:
@@ -257,7 +257,7 @@ def cases(tier: str, rng: random.Random):  # noqa: ANN201
     for body in BODIES:
         for n in (1, 2):
             for scripts in itertools.product(SCRIPTS, repeat=n):
-                for sites in ([("plain",) * n, ("sscope",) * n, ("updated", "plain")[:n]] if n == 2 else [(s,) for s in SITES]):
+                for sites in ([("plain",) * n, ("sscope",) * n, ("updated", "plain")[:n], ("callback", "plain")[:n], ("plain", "callback")[:n]] if n == 2 else [(s,) for s in SITES]):
                     case = {"tasks": [[s, site, False] for s, site in zip(scripts, sites)], "body": body}
                     if valid(case):
                         yield case
@@ -351,6 +351,7 @@ def run(R: Recorder, tier: str, seed: int, shard: int, nshards: int) -> None:
         detached(R)
         factories(R)
         argnames.check_ctx_entry_points(R, "spawn-factory", "spawn")
+        argnames.check_injecting_ctx(R, "spawn-factory", "spawn")
     rng_cases = random.Random(f"C06/{seed}")
     rng = random.Random(f"C06/{seed}/{shard}")
     for i, case in enumerate(cases(tier, rng_cases)):
@@ -364,6 +365,9 @@ def replay(R: Recorder, rec: dict[str, Any]) -> None:
         return
     if "factory" in rec:
         factories(R)
+        return
+    if "injecting" in rec:
+        argnames.check_injecting_ctx(R, "spawn-factory", "spawn")
         return
     if "ctx_entry" in rec:
         argnames.check_ctx_entry_points(R, "spawn-factory", "spawn")
